@@ -488,7 +488,7 @@ class BaseProvider:
         Returns:
           List of instances in repository that represent classname
         """
-        classnames = NocaseList(classname)
+        classnames = NocaseList([classname])
         instance_store = self.cimrepository.get_instance_store(namespace)
 
         insts = [self._get_bare_instance(inst.path, instance_store)
